@@ -278,13 +278,70 @@ def expand(fn: ast.AST, expr: Optional[ast.AST], depth: int = 6, keep: Iterable[
         return None
     from .inline import clone
 
-    return _Expander(_single_defs(fn), depth, set(keep)).visit(clone(expr))
+    return _UnrollComps().visit(_Expander(_single_defs(fn), depth, set(keep)).visit(clone(expr)))
+
+
+class _SubstNames(ast.NodeTransformer):
+    def __init__(self, m: Dict[str, ast.AST]):
+        self.m = m
+
+    def visit_Name(self, node: ast.Name):
+        if isinstance(node.ctx, ast.Load) and node.id in self.m:
+            from .inline import clone
+
+            return clone(self.m[node.id])
+        return node
+
+
+class _UnrollComps(ast.NodeTransformer):
+    """[f(e) for e in (A, B, C)] -> [f(A), f(B), f(C)]: a list comprehension over a literal sequence is that list."""
+
+    def visit_ListComp(self, node: ast.ListComp):
+        self.generic_visit(node)
+        if len(node.generators) != 1 or node.generators[0].ifs or not isinstance(node.generators[0].iter, (ast.Tuple, ast.List)):
+            return node
+        g = node.generators[0]
+        from .inline import clone
+
+        elts = []
+        for item in g.iter.elts:
+            if isinstance(g.target, ast.Name):
+                m = {g.target.id: item}
+            elif isinstance(g.target, (ast.Tuple, ast.List)) and isinstance(item, (ast.Tuple, ast.List)) and len(item.elts) == len(g.target.elts) \
+                    and all(isinstance(t, ast.Name) for t in g.target.elts):
+                m = {t.id: e for t, e in zip(g.target.elts, item.elts)}
+            else:
+                return node
+            elts.append(_SubstNames(m).visit(clone(node.elt)))
+        return ast.copy_location(ast.List(elts=elts, ctx=ast.Load()), node)
+
+
+class _FlatSubs(ast.NodeTransformer):
+    """x[0][3, 1] / x[0][3][1] -> x[0, 3, 1]: chained indexing by integer constants is one multi-axis index."""
+
+    def visit_Subscript(self, node: ast.Subscript):
+        self.generic_visit(node)
+        inner = node.value
+        if isinstance(inner, ast.Subscript):
+            ii = inner.slice.elts if isinstance(inner.slice, ast.Tuple) else [inner.slice]
+            oi = node.slice.elts if isinstance(node.slice, ast.Tuple) else [node.slice]
+            if all(isinstance(i, ast.Constant) and isinstance(i.value, int) and not isinstance(i.value, bool) for i in ii):
+                return ast.copy_location(ast.Subscript(value=inner.value, slice=ast.Tuple(elts=list(ii) + list(oi), ctx=ast.Load()), ctx=node.ctx), node)
+        return node
+
+
+def flat_subs(e: Optional[ast.AST]) -> Optional[ast.AST]:
+    if e is None:
+        return None
+    from .inline import clone
+
+    return _FlatSubs().visit(clone(e))
 
 
 def xnorm(fn: ast.AST, expr: Optional[ast.AST], keep: Iterable[str] = ()) -> str:
-    """Normalised text of the expanded expression."""
+    """Normalised text of the expanded expression (chained constant indexing flattened)."""
     e = expand(fn, expr, keep=keep)
-    return norm(e) if e is not None else ""
+    return norm(_FlatSubs().visit(e)) if e is not None else ""
 
 
 @dataclass
@@ -348,6 +405,21 @@ def loop_elems(loop: ast.AST, fn: Optional[ast.AST] = None) -> Optional[LoopElem
             seq = n.func.value
         if seq is not None:
             return LoopElems(seq, tg.id, None, [])
+        if fn is not None:
+            # range(N) where a sequence indexed by the loop variable was made with S = X.reshape(N, ...) / X.view(N, ...)
+            want = xnorm(fn, it.args[0])
+            for sub in ast.walk(loop):
+                if not (isinstance(sub, ast.Subscript) and isinstance(sub.value, ast.Name) and tg.id in names_in(sub.slice)):
+                    continue
+                d = _single_defs(fn).get(sub.value.id)
+                lead = None
+                if isinstance(d, ast.Call) and isinstance(d.func, ast.Attribute) and d.func.attr in ("reshape", "view") and d.args:
+                    a0 = d.args[0]
+                    lead = a0.elts[0] if isinstance(a0, (ast.Tuple, ast.List)) and a0.elts else a0
+                elif isinstance(d, ast.Call) and norm(d.func) in ("torch.reshape", "np.reshape") and len(d.args) >= 2 and isinstance(d.args[1], (ast.Tuple, ast.List)) and d.args[1].elts:
+                    lead = d.args[1].elts[0]
+                if lead is not None and xnorm(fn, lead) == want:
+                    return LoopElems(ast.copy_location(ast.Name(sub.value.id, ast.Load()), sub), tg.id, None, [])
         return None
     if isinstance(tg, ast.Name):
         return LoopElems(it, None, tg.id, [])
@@ -429,11 +501,16 @@ def phi_defs(fn: ast.AST) -> Dict[str, ast.IfExp]:
     cache = getattr(fn, "_phi_defs", None)
     if cache is not None:
         return cache
-    sites: Dict[str, List[ast.Assign]] = {}
+    sites: Dict[str, List[Tuple[ast.stmt, ast.AST]]] = {}   # name -> [(statement, value bound)]
     other: Dict[str, int] = {}
     for st in walk_function(fn):
         if isinstance(st, ast.Assign) and len(st.targets) == 1 and isinstance(st.targets[0], ast.Name):
-            sites.setdefault(st.targets[0].id, []).append(st)
+            sites.setdefault(st.targets[0].id, []).append((st, st.value))
+        elif isinstance(st, ast.Assign) and len(st.targets) == 1 and isinstance(st.targets[0], (ast.Tuple, ast.List)) and isinstance(st.value, (ast.Tuple, ast.List)) \
+                and len(st.targets[0].elts) == len(st.value.elts) and all(isinstance(e, ast.Name) for e in st.targets[0].elts) \
+                and not ({e.id for e in st.targets[0].elts} & names_in(st.value)):
+            for e, v in zip(st.targets[0].elts, st.value.elts):   # a, b = x, y  (no element reads a or b)
+                sites.setdefault(e.id, []).append((st, v))
         elif isinstance(st, (ast.Assign, ast.AugAssign, ast.AnnAssign, ast.For, ast.AsyncFor)):
             tg = st.targets if isinstance(st, ast.Assign) else [st.target]
             for t in tg:
@@ -443,11 +520,11 @@ def phi_defs(fn: ast.AST) -> Dict[str, ast.IfExp]:
     for name, defs in sites.items():
         if len(defs) != 2 or other.get(name):
             continue
-        a, b = defs
+        (a, va), (b, vb) = defs
         pa, pb = getattr(a, "_parent", None), getattr(b, "_parent", None)
         if pa is pb and isinstance(pa, ast.If) and ((a in pa.body and b in pa.orelse) or (b in pa.body and a in pa.orelse)):
-            t, e = (a, b) if a in pa.body else (b, a)
-            out[name] = ast.IfExp(test=pa.test, body=t.value, orelse=e.value)
+            t, e = (va, vb) if a in pa.body else (vb, va)
+            out[name] = ast.IfExp(test=pa.test, body=t, orelse=e)
     try:
         fn._phi_defs = out  # type: ignore[attr-defined]
     except Exception:
@@ -786,7 +863,7 @@ def unroll_literal_loops(fn: ast.AST) -> ast.AST:
             for fld in ("body", "orelse", "finalbody"):
                 if hasattr(st, fld) and isinstance(getattr(st, fld), list) and not isinstance(st, (ast.For, ast.While, ast.FunctionDef, ast.ClassDef)):
                     setattr(st, fld, unroll_block(getattr(st, fld)))
-            if isinstance(st, ast.For) and not st.orelse:
+            if isinstance(st, ast.For):
                 items = _literal_items(new, st.iter)
                 maps = [bind(st.target, v) for v in items] if items is not None else None
                 if maps and all(m is not None for m in maps):
@@ -794,14 +871,20 @@ def unroll_literal_loops(fn: ast.AST) -> ast.AST:
                     if not jumps:
                         for m in maps:
                             out.extend(unroll_block(subst(st.body, m)))
+                        out.extend(unroll_block(st.orelse))   # no break: the else block always runs
+                        continue
+                    if False:
+                        for m in maps:
+                            out.extend(unroll_block(subst(st.body, m)))
                         continue
                     single = st.body[0] if len(st.body) == 1 and isinstance(st.body[0], ast.If) and not st.body[0].orelse else None
                     if single is not None and single.body and isinstance(single.body[-1], ast.Break) and len(jumps) == 1:
                         chain = None
+                        tail = unroll_block(st.orelse)   # for/else: runs when no iteration broke out
                         for m in reversed(maps):
                             test = _Subst(m).visit(clone(single.test))
                             body = unroll_block(subst(single.body[:-1], m)) or [ast.Pass()]
-                            chain = ast.If(test=test, body=body, orelse=[chain] if chain is not None else [])
+                            chain = ast.If(test=test, body=body, orelse=[chain] if chain is not None else tail)
                             ast.copy_location(chain, single)
                         out.append(chain)
                         continue
@@ -821,3 +904,42 @@ def unroll_literal_loops(fn: ast.AST) -> ast.AST:
     ast.fix_missing_locations(new)
     set_parents(new)
     return new
+
+
+def self_alias(fn: ast.AST, e: Optional[ast.AST]) -> str:
+    """Normalised text of `e`, except that a local bound once and stored once as `self.<attr> = local` reads as
+    `self.<attr>` (the two names denote the same object from then on)."""
+    if isinstance(e, ast.Name):
+        binds = [s for s in assignments_to(fn, e.id)]
+        stores = [s for s in walk_function(fn) if isinstance(s, ast.Assign) and isinstance(s.value, ast.Name) and s.value.id == e.id
+                  and len(s.targets) == 1 and isinstance(s.targets[0], ast.Attribute) and norm(s.targets[0].value) == "self"]
+        if len(binds) == 1 and len(stores) == 1:
+            return norm(stores[0].targets[0])
+    return norm(e) if e is not None else ""
+
+
+@dataclass
+class DictBuild:
+    key: ast.AST
+    value: ast.AST
+    gen: ast.AST          # the For loop or the comprehension generator
+    site: ast.AST         # the store statement or the DictComp
+
+
+def dict_builds(fn: ast.AST, e: Optional[ast.AST]) -> List[DictBuild]:
+    """The ways the dict denoted by `e` (a DictComp, or a name bound to a DictComp / to {} and filled by D[k] = v in a
+    loop) receives its items."""
+    if isinstance(e, ast.Name):
+        out: List[DictBuild] = []
+        for st in walk_function(fn):
+            if isinstance(st, ast.Assign) and len(st.targets) == 1:
+                t = st.targets[0]
+                if isinstance(t, ast.Name) and t.id == e.id and isinstance(st.value, ast.DictComp):
+                    out += dict_builds(fn, st.value)
+                elif isinstance(t, ast.Subscript) and isinstance(t.value, ast.Name) and t.value.id == e.id:
+                    loops = enclosing_loops(st)
+                    out.append(DictBuild(t.slice, st.value, loops[0] if loops else None, st))
+        return out
+    if isinstance(e, ast.DictComp) and len(e.generators) == 1:
+        return [DictBuild(e.key, e.value, e.generators[0], e)]
+    return []
